@@ -133,11 +133,17 @@ def _r1_capacity(ctx: Ctx, m: pf.Module, cls: ast.ClassDef) -> None:
     e = body[0].value
     sized = [mp for mp in MAPS if af.mentions(e, f'len({mp})')]
     ctx.need(len(sized) == 1, f'_over_capacity `{pf.nsrc(e)}` does not measure exactly one of the cache maps')
-    ev = af.TestEval(f'len({sized[0]})', 'self.num_slots', [])
-    rows = ev.rows(e)
-    miss = [r for r in rows if r[0] == '>' and not r[2]]
-    ctx.check(not miss, 'R1', f'{F}::{CLS}._over_capacity', f'`{pf.nsrc(e)}` is false although len > num_slots: the cache grows beyond its capacity',
-              m.path, oc.lineno, detail={'test': pf.nsrc(e)})
+    ctx.need(isinstance(e, ast.Compare), f'_over_capacity `{pf.nsrc(e)}` is not a comparison')
+    nz = af.compare_leq_zero(e, {f'len({sized[0]})': 'n', 'self.num_slots': 'S'})
+    ctx.need(nz is not None, f'_over_capacity `{pf.nsrc(e)}` is not a linear comparison of len({sized[0]}) with self.num_slots')
+    d, strict = nz  # type: ignore[misc]
+    a, b, c = d.get('n', 0), d.get('S', 0), d.get('1', 0)
+    ctx.need(set(d) <= {'n', 'S', '1'} and a != 0, f'_over_capacity `{pf.nsrc(e)}`: unrecognised linear form {af.lin_str(d)}')
+    # condition  a*n + b*S + c  (< | <=) 0  must hold whenever n >= S + 1 (integers), for every S
+    holds = a < 0 and a + b == 0 and ((a + c < 0) if strict else (a + c <= 0))
+    ctx.check(holds, 'R1', f'{F}::{CLS}._over_capacity', f'`{pf.nsrc(e)}` (i.e. {af.lin_str(d)} {"<" if strict else "<="} 0) is false for len = num_slots + 1: '
+              f'the insertion that exceeds the capacity is not compensated and the cache holds more than num_slots entries', m.path, oc.lineno,
+              detail={'test': pf.nsrc(e)})
     eo = af.method(m, cls, '_evict_oldest')
     cfg = pf.cfg(eo)
     rm = af.stmt_nodes(cfg, lambda n: af.node_is_call(n, 'self._remove') is not None)
@@ -395,7 +401,7 @@ def run(ctx: Ctx) -> None:
     ctx.rule('R2', 'expiry = monotonic_ns + lifetime_ns; a cached value is returned only after, atomically, its expiry was compared with the same clock '
                    'and expired entries removed', 6)
     ctx.rule('R3', 'single flight: registration atomic after the in-flight test, one load call site, waiters start no load, registration removed on every exit', 6)
-    ctx.rule('R4', 'every await of a task read from the shared _futures map is shielded', 2)
+    ctx.rule('R4', 'every await of a task read from the shared _futures map is shielded', 1)
     ctx.rule('R5', 'gear/auth.py builds the cache with positive constant lifetime/capacity and only calls lookup', 3)
     ctx.assume('asyncio switches only at await; cancelling a coroutine that awaits a Task cancels that Task unless the await goes through asyncio.shield')
     ctx.assume('shutdown() is outside the property; the loader coroutine does not touch the cache')
